@@ -27,6 +27,17 @@ def run(ctx):
         ins.append((v.to_bytes(32, "big"), "len32/boundary"))
     for _ in range(24 if not thorough else 300):
         ins.append((rng.randrange(1, N).to_bytes(32, "big"), "len32/random"))
+    # consecutive small secrets, chosen so that every value 0x00..0xff occurs as the first byte of X and as the first byte of Y
+    pt, seenx, seeny, k = None, set(), set(), 0
+    while (len(seenx) < 256 or len(seeny) < 256) and k < 20000:
+        k += 1
+        pt = pyref.pt_add(pt, pyref.G)
+        bx, by = pt[0] >> 248, pt[1] >> 248
+        if bx not in seenx or by not in seeny:
+            seenx.add(bx)
+            seeny.add(by)
+            ins.append((k.to_bytes(32, "big"), "len32/coordinate-leading-byte"))
+    ctx.exhaustive["every leading byte value of the X and of the Y coordinate (small consecutive secrets)"] = len(seenx) == 256 and len(seeny) == 256
     for n in range(0, 65):
         if n != 32:
             ins.append(((1).to_bytes(n, "big") if n else b"", "len%s/one" % ("24-31" if 24 <= n < 32 else "other")))
